@@ -640,7 +640,7 @@ def _first_touch_op(rng, t, datas, ident):
         lambda: ["insContour", t, rng.randrange(4)] + contour(),
         lambda: ["insContour", t, 99] + contour(),
         lambda: ["reinsContour", t, rng.randrange(4), rng.randrange(4)],
-        lambda: ["rmAbsent", 0, t, rng.randrange(4)],
+        lambda: ["rmAbsent", 0, t, rng.randrange(4)], lambda: ["rmAbsent", 0, t, rng.randrange(4)],
         lambda: ["load", t, rng.randrange(5)], lambda: ["rmContour", t, rng.randrange(4)], lambda: ["reverse", t, rng.randrange(4)],
         lambda: ["genPointId", t, rng.randrange(4), rng.randrange(4), [ident() or 0, 902]],
         lambda: ["insPoint", t, rng.randrange(4), rng.randrange(4), 2, ident()],
@@ -653,6 +653,8 @@ def _first_touch_op(rng, t, datas, ident):
     if higher:
         choices += [
             lambda: ["deserializeFrom", t, rng.choice(higher)], lambda: ["copyFrom", t, rng.choice(higher)],
+            lambda: ["copyFrom", t, rng.choice(higher)], lambda: ["copyFrom", t, rng.choice(higher)],
+            lambda: ["drawFrom", t, rng.choice(higher), rng.random() < 0.5],
             lambda: ["drawFrom", t, rng.choice(higher), False], lambda: ["drawFrom", t, rng.choice(higher), True],
             lambda: ["rmForeign", 0, t, rng.choice(higher), rng.randrange(4)],
         ]
@@ -704,7 +706,7 @@ def gen_shallow_cases(rng, tier):
                 if stored[t] and rng.random() < 0.65:
                     return rng.choice(stored[t])
                 return _pid(rng, 0.2)
-            if rng.random() < 0.25:
+            if rng.random() < 0.45:
                 # something for the limbo (taken from ANOTHER glyph, which that loads)
                 u = rng.choice([x for x in range(NGLYPH) if x != t])
                 ops.append(["rmContour", u, rng.randrange(4)])
